@@ -465,6 +465,7 @@ void run_world(const Case &c)
   if (T2::live != 0 || T2::bad != 0)
   {
     g_shm->findings++;
+          g_shm->bad++;
     emit({{"r", Fam::world == 0 ? "mismatch" : "stdspec"}, {"m", c.m}, {"id", c.id}, {"inst", c.inst},
           {"step", static_cast<long>(sts.size())}, {"op", "teardown"}, {"path", "/live"}, {"exp", 0}, {"obs", T2::live},
           {"what", std::string(world) + ": Tracked instances alive after both variants were destroyed: " +
